@@ -6,7 +6,7 @@ namespace mc {
 
 enum AlphaBits : unsigned {
     A_ADDV = 1, A_ADDE = 2, A_ADDF = 4, A_ADDC = 8, A_SET = 16, A_DEL = 32, A_SWAP = 64, A_GC = 128, A_CLEAR = 256,
-    A_MODE = 512, A_BU = 1024, A_PROP = 2048, A_ADDFHE = 4096, A_ADDCV = 8192, A_SWAPFEW = 16384, A_GCOP = 32768, A_COLLAPSE = 65536, A_PERM = 131072,
+    A_MODE = 512, A_BU = 1024, A_PROP = 2048, A_ADDFHE = 4096, A_ADDCV = 8192, A_SWAPFEW = 16384, A_GCOP = 32768, A_COLLAPSE = 65536, A_PERM = 131072, A_DELC = 262144,
     A_FULL = A_ADDV | A_ADDE | A_ADDF | A_ADDC | A_SET | A_DEL | A_SWAP | A_GC | A_CLEAR | A_MODE | A_BU | A_ADDFHE,
     A_RESTRICTED = A_DEL | A_SWAP | A_GC | A_MODE | A_BU,
     A_DELETION = A_ADDV | A_ADDE | A_ADDF | A_ADDC | A_DEL | A_GC | A_CLEAR | A_MODE,
@@ -196,6 +196,7 @@ inline std::vector<Op> menu(const Sys &s, const Bf &bf, unsigned alpha, const Ca
         }
 #endif
     }
+    if ((alpha & A_DELC) && !(alpha & A_DEL)) for (int c : lc) r.push_back(Op(DEL_C, {c}));  // delete_cell only
     if (alpha & A_DEL) {
         for (int c : lc) r.push_back(Op(DEL_C, {c}));
         for (int f : lf) r.push_back(Op(DEL_F, {f}));
